@@ -207,6 +207,11 @@ pub fn judge(exp: &Expect, obs: &RObs, pos: usize) -> Result<Option<usize>, (Str
     }
 }
 
+/// wall-clock cap for one (configuration, image) exploration (VERIF_WALL_CAP seconds; default 120)
+pub fn wall_cap_s() -> u64 {
+    std::env::var("VERIF_WALL_CAP").ok().and_then(|s| s.parse().ok()).unwrap_or(120)
+}
+
 /// model position of a state reached through a reported error (only seeks are issued from it)
 pub const ERRORED: usize = usize::MAX;
 
@@ -269,7 +274,13 @@ pub fn explore(run: &RdRun, init: Box<dyn Rd>) -> Outcome {
     queue.push_back((0, init, pos0));
     let mut sampled = false;
     let mut nviol = 0u64;
+    let t_start = std::time::Instant::now();
+    let wall_cap = wall_cap_s();
     while let Some((id, rd, pos)) = queue.pop_front() {
+        if (id & 0x3F) == 0 && t_start.elapsed().as_secs() >= wall_cap {
+            out.cov.caps_hit.push(format!("{}: wall cap of {} s per (configuration, image) reached after {} states", cfg, wall_cap, nodes.len()));
+            break;
+        }
         if nviol >= VIOLATION_BUDGET {
             // the property is refuted many times over: do not spend the budget on a space that no longer closes
             out.cov.caps_hit.push(format!("{}: exploration stopped after {} violating transitions", cfg, nviol));
